@@ -24,7 +24,7 @@ from vcdd.oracle.ircmp import canon
 KINDS = ("function_parse_partial", "emit_class", "emit_function", "emit_argparse", "emit_sqlalchemy", "emit_docstring",
          "json_schema", "infer_imports", "merge_assignment_lists", "gen_file", "gen_file_imports", "doctrans",
          "openapi", "class_parse", "sync_properties", "optimise_imports", "emit_sqlalchemy_custom", "docstring_parse",
-         "function_parse_footer", "gen_phase1", "json_schema_set_default", "gen_file_infer", "gen_dir", "gen_imports_from_file", "shared_ir")
+         "function_parse_footer", "gen_phase1", "json_schema_set_default", "gen_file_infer", "gen_dir", "gen_imports_from_file", "shared_ir", "emit_after_parse")
 
 # a small shared pool of type names the converters have no table entry for: a later case meets names an earlier
 # (or an interleaved, unrelated) conversion has already seen - what a module-level table that learns would change
@@ -134,9 +134,52 @@ def shared_ir_case(r):
     return "\n".join(out)
 
 
+FOREIGN = (("argparse", {"typ": "dict"}), ("argparse", {"typ": "list"}), ("argparse", {"typ": "Optional[dict]"}),
+           ("class", {"typ": "dict", "default": "```{}```"}), ("function", {"typ": "Optional[List[str]]"}),
+           ("sqlalchemy", {"typ": "dict"}), ("argparse", {"typ": "Person"}), ("class", {"typ": "Callable or None"}))
+
+
+def emit_after_parse_case(r):
+    """an interface with container / custom / Optional types emitted through class, function and argparse - in the histories
+    `twice` and `interleaved` after the *parse* of an unrelated source that cdd itself emitted (an argparse function with a
+    required option of non-simple type, ...): what a parser learns (a module-level table written to) must not change what
+    an emitter writes afterwards"""
+    from collections import OrderedDict
+
+    names = r.sample(irgen.NAMES, 3)
+    types = r.sample(("dict", "Optional[dict]", "list", "Optional[list]", "Optional[List[str]]", "Person", "Callable", "int", "str"), 5)
+    names = r.sample(irgen.NAMES, 5)
+    params = OrderedDict()
+    for nm, t in zip(names, types):
+        params[nm] = {"typ": t, "doc": irgen.rand_doc(r, stop=False)}
+        if t in ("int", "str"):
+            params[nm]["default"] = {"int": 3, "str": "x"}[t]
+        elif t.startswith("Optional["):
+            params[nm]["default"] = irgen.NONE_STR
+    ir = {"name": "Target", "type": "static", "doc": irgen.rand_doc(r), "params": params, "returns": None}
+    if HISTORY[0] in ("twice", "interleaved"):
+        for fmt_f, entry in FOREIGN:  # every foreign source is emitted by cdd and parsed back before the target is emitted
+            foreign = {"name": "Foreign", "type": "static", "doc": "Foreign things.", "returns": None,
+                       "params": OrderedDict((("payload", dict({"doc": entry["typ"] + ". Something to carry"}, **{
+                           k: v for k, v in entry.items() if k != "typ" or " " not in v})),))}
+            try:
+                hops.hop(foreign, fmt_f)
+            except Exception:
+                pass
+    out = []
+    for fmt in ("class", "function", "argparse"):
+        try:
+            out.append(hops.emit(ir, fmt)[1])
+        except Exception as e:
+            out.append("%s raised %s" % (fmt, type(e).__name__))
+    return "\n# ----\n".join(out)
+
+
 def run_case(kind, r, tmp):
     if kind == "shared_ir":
         return shared_ir_case(r)
+    if kind == "emit_after_parse":
+        return emit_after_parse_case(r)
     import cdd.shared.ast_utils as au
 
     if kind == "function_parse_partial":
